@@ -89,3 +89,12 @@ func loadAddrManager(amBucket mwdb.Bucket, pubPassphrase []byte, net *wconfig.Pa
 	return &AddrManager{keystoreName: meta.Name(), index: map[uint32]string{}, addrs: map[string]*ManagedAddress{},
 		acctInfo: &accountInfo{}, branchInfo: &branchInfo{}, storage: meta}, nil
 }
+
+// cut "validatePassphrase": the passphrase rule is a regular expression (^[0-9a-zA-Z@#$%^&]{6,40}$); the regexp engine
+// is not executed symbolically. Contract kept: the length window.
+func ValidatePassphrase(pass []byte) bool {
+	if !rt.CutActive("validatePassphrase") {
+		return ValidatePassphrase__real(pass)
+	}
+	return len(pass) >= 6 && len(pass) <= 40
+}
